@@ -50,7 +50,7 @@ type obs struct {
 	// entry probes: one-leaf queries for entries a filter denied although a stored row under it carries them
 	Probes    int `json:"probes"`
 	ProbeLost int `json:"probe_lost"` // stored rows carrying the entry that the probe query did not return
-	Stdio   int        `json:"stdio"`
+	Stdio     int `json:"stdio"`
 }
 
 type testStringer interface{ TestString(string) bool }
